@@ -1,6 +1,6 @@
 SPECIFICATION GenSpecC
 CONSTANTS Names <- NamesQ Depth = 2 Vals <- ValsQ Sep = 46 Design = "items" Base <- NoBase MaxSlots = 2
-  Strs <- NoStrs Seps <- NoStrs Asgs <- NoStrs Elems <- NoStrs
+  Ends <- Ends0 Strs <- NoStrs Seps <- NoStrs Asgs <- NoStrs Elems <- NoStrs
 CONSTRAINT Bound
 VIEW ViewC
 ACTION_CONSTRAINT Emit
